@@ -26,7 +26,7 @@ import json, math, os, subprocess, tempfile, concurrent.futures
 from harness.drive import f2b, b2f
 
 ID = "C11"
-THEOREM_MODULES = ["JF.Props.C11"]
+THEOREM_MODULES = ["JF.Props.C11", "JF.Props.SystemLinks"]
 COMPONENTS = ["occ"]
 ASSUMPTIONS = [
     "exactly one active unit on the cell level per update call (the class asserts it); positions lie inside the box "
